@@ -39,6 +39,7 @@ FUNCTION_NAMES = {'exp', 'log', 'max', 'min', 'abs', 'float', 'int'}
 def strata(tier):
     yield 'S1', programs.s1
     yield 'SV', programs.sv
+    yield 'SL', programs.sl
     yield 'S2', programs.s2
     yield 'S3', (lambda: programs.s3(5)) if tier == 'quick' else (lambda: programs.s3(6))
     yield 'S4', (lambda: programs.s4(8)) if tier == 'quick' else (lambda: programs.s4(None))
@@ -47,7 +48,7 @@ def strata(tier):
 def blocks(tier, seed):
     out = []
     for name, _ in strata(tier):
-        nb = {'S1': 8, 'SV': 2, 'S2': 16, 'S3': 64 if tier == 'quick' else 256, 'S4': 32 if tier == 'quick' else 96}[name]
+        nb = {'S1': 8, 'SV': 2, 'SL': 4, 'S2': 16, 'S3': 64 if tier == 'quick' else 256, 'S4': 32 if tier == 'quick' else 96}[name]
         for b in range(nb):
             out.append({'stratum': name, 'b': b, 'nb': nb})
     return out
@@ -93,8 +94,21 @@ def numeric_compare(p, Model, names, L, t, vec, span=None, label_pos=None):
     """Bit-exact: real _evaluate on float data vs CPython evaluation of the reference trees."""
     rng = np.random.RandomState(1234 + vec)
     data = {n: (rng.uniform(0.2, 1.9, L) * (1 if vec in (0, 2) else rng.choice([-1.0, 1.0], L))) for n in names}
-    m = Model(range(L) if span is None else span)
+    shared = keep = None
+    if vec == 3 and any(n in ('self', 'span', 'engine', 'strict', 'dtype', 'default_value') for n in names):
+        return None  # these names cannot be passed as constructor keywords (they are the constructor's own arguments)
+    if vec == 3:
+        # every variable is seeded, at instantiation, from ONE array object owned by the caller: the model must hold
+        # its own copy per variable (a write to one variable is a write to that variable only) and leave the caller's array alone
+        shared = data[names[0]].copy()
+        keep = shared.copy()
+        data = {n: keep for n in names}
+        m = Model(range(L) if span is None else span, **{n: shared for n in names})
+    else:
+        m = Model(range(L) if span is None else span)
     for n in names:
+        if vec == 3:
+            continue
         if vec == 2:
             m[n] = list(range(L))      # a whole-series assignment of an all-integer list ...
             m[n][:] = data[n]          # ... then the float data, written in place: the series must still be a float series
@@ -121,6 +135,8 @@ def numeric_compare(p, Model, names, L, t, vec, span=None, label_pos=None):
             except Exception as e:
                 exc_r = type(e).__name__
                 break
+    if shared is not None and shared.tobytes() != keep.tobytes():
+        return ('caller-array-written', keep.tolist(), shared.tolist())
     if exc_m or exc_r:
         return None if exc_m == exc_r else ('exception', exc_r, exc_m)
     for (n, i), v in cells.items():
@@ -147,9 +163,9 @@ def check_program(p):
         symbols = fsic.parse_model(script)
         Model = fsic.build_model(symbols)
     except (ParserError, SymbolError, IndentationError) as e:
-        return [], 'rejected:' + type(e).__name__
+        return _spelling_twin(p, type(e).__name__), 'rejected:' + type(e).__name__
     except Exception as e:
-        return [], 'rejected-foreign:' + type(e).__name__
+        return _spelling_twin(p, type(e).__name__), 'rejected-foreign:' + type(e).__name__
     out = []
     names = p.names_in_order()
     lags, leads = p.lags_leads()
@@ -157,6 +173,9 @@ def check_program(p):
     fk = feature_key(p)
     if missing:
         return [('symbols:missing:' + fk, names, list(Model.NAMES), 'a name written in the script is not a model variable')], 'accepted'
+    extra = [n for n in Model.NAMES if n not in names]
+    if extra:
+        return [('symbols:extra:' + fk, names, list(Model.NAMES), 'the model has a variable that is not a term of the script (a function name or keyword taken for a variable?)')], 'accepted'
     L = lags + leads + 2
     ref = p.ref_eqs()
     wrote = False
@@ -176,19 +195,33 @@ def check_program(p):
         else:
             try:
                 c = equation_paths(symbols, list(Model.NAMES), L, t)
-            except SyntaxError:
-                c = None
+            except SyntaxError as e:
+                out.append(('equation-text:unparsable:' + fk, 'an expression', [s.equation for s in symbols if s.equation][:2],
+                            'the normalised equation text is not a Python statement although the generated code is (%s)' % e.msg))
+                break
         if c is not None and c != a:
             out.append(('equation-text:' + fk, _short(a[:1]), _short(c[:1]), 'the normalised equation text denotes a different expression than the generated code (t=%d)' % t))
             break
     if not out:
         t = lags
-        for vec in (0, 1, 2):
+        for vec in (0, 1, 2, 3):
             d = numeric_compare(p, Model, list(Model.NAMES), L, t, vec, span, label_pos)
             if d is not None:
                 out.append(('numeric:' + fk, d[1], d[2], 'bit-exact numeric cross-check differs (%s)' % d[0]))
                 break
     return out, 'accepted' if wrote else 'accepted-no-write'
+
+
+def _spelling_twin(p, err):
+    """A program spelled with redundant brackets / blanks is rejected: a violation if the same program in Python's own
+    normal spelling is accepted (only the spelling differs)."""
+    if p.stratum != 'SL':
+        return []
+    try:
+        fsic.build_model(fsic.parse_model(p.normal_script()))
+    except Exception:
+        return []
+    return [('spelling:rejected:' + err, 'accepted like %r' % p.normal_script(), err, 'a respelling of an accepted equation is rejected')]
 
 
 def _short(x):
